@@ -498,7 +498,8 @@ class Interp:
             from .extlib import ExtLib
             var = "%s_iter" % st.target.id
             ExtLib.INT_SYMBOLS.add(var)
-            self.trace.append(Op("LoopBegin", var=var, range=it.info, where=self.where(st, ms), stack=tuple(self.call_stack)))
+            self.trace.append(Op("LoopBegin", var=var, range=it.info, where=self.where(st, ms), stack=tuple(self.call_stack),
+                                 iterator=ast.unparse(st.iter.func) if isinstance(st.iter, ast.Call) else ast.unparse(st.iter)))
             scope.vars[st.target.id] = psym(var)
             self.exec_block(st.body, scope, ms)
             self.trace.append(Op("LoopEnd", var=var, where=self.where(st, ms)))
@@ -1132,6 +1133,9 @@ class Interp:
         if isinstance(fn, FFTPlan):
             return self.ext.call_fft(fn, args, kwargs, node, ms)
         if isinstance(fn, Ext):
+            if fn.path == "numba.prange":
+                # same index set as range(); whether the iterations may run concurrently is C15's question (read from the AST)
+                return self.call_builtin("range", args, kwargs, node, ms, scope)
             return self.ext.call(fn, args, kwargs, node, ms)
         if isinstance(fn, Opaque):
             if fn.tag == "builtin":
